@@ -1,6 +1,7 @@
 package urlfilter
 
 import (
+	"net/netip"
 	"strings"
 
 	"github.com/AdguardTeam/golibs/syncutil"
@@ -91,13 +92,17 @@ func verifC02(nh, nn, patLen, hostLen int) {
 		verifScanIdx = append(verifScanIdx, int64(1)<<32|int64(10*i))
 	}
 	for i := 0; i < nn; i++ {
-		n := rules.VerifDNSNetRule(vn("n", i, ""), patLen)
+		n := rules.VerifDNSNetRule(vn("n", i, ""), patLen, i == 0) // the first network rule may carry $client
 		netRules = append(netRules, n)
 		verifScanRules = append(verifScanRules, n)
 		verifScanIdx = append(verifScanIdx, int64(2)<<32|int64(10*i+3))
 	}
 	host := verifString("host", hostLen, "zq")
 	dreq := &DNSRequest{Hostname: host, DNSType: verifU16("q.dnstype"), ClientName: verifString("q.client", 1, "ab")}
+
+	if verifBool("q.hasip") {
+		dreq.ClientIP = netip.AddrFrom4([4]byte{9, 9, 9, verifU8("q.ip")})
+	}
 
 	var engine *DNSEngine
 	if verifSymbolic() {
@@ -110,6 +115,8 @@ func verifC02(nh, nn, patLen, hostLen int) {
 			panic(err)
 		}
 		engine = NewDNSEngine(storage)
+		// the pool holds the recycled object of the model (in symbolic mode the pool stub hands it out)
+		engine.pool.Put(rules.VerifGarbageRequest("pooled"))
 	}
 	res, matched := engine.MatchRequest(dreq)
 
@@ -117,6 +124,7 @@ func verifC02(nh, nn, patLen, hostLen int) {
 	fresh := &rules.Request{}
 	fresh.DNSType = dreq.DNSType
 	fresh.ClientName = dreq.ClientName
+	fresh.ClientIP = dreq.ClientIP
 	rules.FillRequestForHostname(fresh, host)
 	var wantNet []*rules.NetworkRule
 	for _, n := range netRules {
@@ -175,7 +183,7 @@ func verifC02(nh, nn, patLen, hostLen int) {
 
 // verifC02HostLevel: IsHostLevelNetworkRule == the documented predicate, for all option words and masks.
 func verifC02HostLevel() {
-	r := rules.VerifDNSNetRule("r", 2)
+	r := rules.VerifDNSNetRule("r", 2, false)
 	verifReach("c02.hostlevel")
 	verifAssert(r.IsHostLevelNetworkRule() == rules.VerifHostLevel(r), "c02: IsHostLevelNetworkRule == documented predicate")
 }
@@ -197,7 +205,7 @@ func verifC19DNS(nh, nn, patLen int) {
 		verifScanIdx = append(verifScanIdx, int64(1)<<32|int64(10*i))
 	}
 	for i := 0; i < nn; i++ {
-		verifScanRules = append(verifScanRules, rules.VerifDNSNetRule(vn("n", i, ""), patLen))
+		verifScanRules = append(verifScanRules, rules.VerifDNSNetRule(vn("n", i, ""), patLen, false))
 		verifScanIdx = append(verifScanIdx, int64(2)<<32|int64(10*i+3))
 	}
 	host := verifString("host", 2, "zq")
